@@ -142,7 +142,10 @@ func init() {
 			}
 			m := map[string]int64{
 				"paths_matched": 25000 * k, "path_ops_matched": 150000 * k, "arcs_followed": 8000 * k, "arc_cubics_sampled": 30000 * k,
-				"arcs_radius_scaled": 500 * k, "arcs_negative_radius": 500 * k, "arcs_zero_length_omitted": 100 * k, "implicit_groups": 15000 * k, "z_then_draw": 1500 * k, "smooth_after_curve": 3000 * k, "smooth_after_other": 2000 * k,
+				"arcs_radius_scaled": 500 * k, "arcs_negative_radius": 50 * k, "arcs_one_negative_radius": 1000 * k, "arcs_zero_length_omitted": 100 * k, "arcs_zero_radius_as_line": 400 * k,
+				"arcs_in_repeated_groups": 3000 * k, "z_closing_implicit_subpath": 300 * k, "num_upper_E": 5000 * k, "num_exp_plus": 2000 * k, "num_dot_after_exp": 100 * k,
+				"shape_rect_rx_ne_ry": 300 * k, "vb_nested_scroll_clip_checked": 10 * k,
+				"refs_cycle_clip": 40 * k, "refs_cycle_mask": 40 * k, "refs_cycle_marker": 40 * k, "refs_cycle_def_used": 50 * k, "implicit_groups": 15000 * k, "z_then_draw": 1500 * k, "smooth_after_curve": 3000 * k, "smooth_after_other": 2000 * k,
 				"num_sep_omitted": 20000 * k, "num_bare_dot": 5000 * k, "num_exp": 1000 * k, "num_exp_neg": 3000 * k, "num_flags": 16000 * k, "num_plus_sign": 3000 * k,
 				"html_inline_matched": 150 * k, "html_img_matched": 150 * k,
 				"patherr_returned": 1200 * k, "patherr_rejected": 300 * k,
@@ -160,8 +163,8 @@ func init() {
 			"the oracle's own interpreter of SVG path data, basic shapes and the viewBox transform (props/c18, written from SVG 1.1 §7.7–7.8, §8.3, §9, appendix F.6) is taken as the specification",
 			"the recording backend's trace is replayed with PDF semantics (Rectangle = moveto + 3 lineto + closepath; after ClosePath the current point is the sub-path start; Transform right-multiplies the CTM)",
 			"coordinates are multiples of 1/8 below 2^13, so every expected value is exact in float32; comparison tolerance 0.02 + 1e-4·|v|, ellipse equation within 1e-3 (relative) at 8 samples per cubic",
-			"path data starts with a moveto, arcs have non-zero radii and distinct end points, no two consecutive closepaths; number spellings exclude upper-case E exponents, explicit '+' exponent signs and a '.'-started number glued to an exponent (known findings)",
-			"cyclic references through clip-path, mask and marker content are not generated (known findings: unbounded recursion); a document with a cyclic <use> may be rejected as a whole",
+			"path data starts with a moveto and has no two consecutive closepaths",
+			"not generated (open findings): <circle r> in percent, a single <rect> radius in percent, a paint-server href that points to a <use>; a document with a cyclic <use> may be rejected as a whole",
 		},
 		Batch: 2000,
 	})
